@@ -114,6 +114,8 @@ pub mod oep;
 
 /// Deterministic pseudorandom number generation based on ChaCha8.
 pub mod source;
+#[cfg(feature = "verif")]
+pub mod verif;
 
 /// Fully generic, backend-parametric test functions.
 ///
